@@ -560,7 +560,7 @@ impl Sel {
                     continue;
                 }
                 mon.count("held-next-to-healthy");
-                if !self.links[i].is_stall_gated() {
+                if !self.links[i].stall_gated {
                     mon.fail("C13", "held-not-gated", format!("link {i} is latched/pulled ({p:?}) while links {healthy:?} are healthy, but it is not stall-gated ({op})"));
                 }
                 if let Some((_, Some(r))) = decision {
@@ -591,18 +591,18 @@ impl Sel {
                 match self.links.get(r) {
                     None => mon.fail("C04", "out-of-range", format!("select returned index {r} of {n}")),
                     Some(c) => {
-                        if !c.is_schedulable() || timed_out_oracle(c, now, cto) || c.is_stall_gated() || !c.connected {
+                        if !c.is_schedulable() || timed_out_oracle(c, now, cto) || c.stall_gated || !c.connected {
                             mon.fail(
                                 "C04",
                                 "ineligible-selected",
-                                format!("select chose link {r}: schedulable={} timed_out(configured {cto})={} gated={} connected={} last_received={:?} ({op})", c.is_schedulable(), timed_out_oracle(c, now, cto), c.is_stall_gated(), c.connected, c.last_received),
+                                format!("select chose link {r}: schedulable={} timed_out(configured {cto})={} gated={} connected={} last_received={:?} ({op})", c.is_schedulable(), timed_out_oracle(c, now, cto), c.stall_gated, c.connected, c.last_received),
                             );
                         }
                     }
                 }
             }
             // a gated link exists only next to a healthy alternative
-            let any_gated = self.links.iter().any(|c| c.is_stall_gated());
+            let any_gated = self.links.iter().any(|c| c.stall_gated);
             if any_gated {
                 mon.count("some-link-gated");
                 let alt = self.links.iter().any(|c| {
@@ -619,11 +619,11 @@ impl Sel {
         if domain && cfg.mode == SchedulingMode::Enhanced {
             let quality = cfg.quality_enabled;
             let any_unc = self.links.iter().any(|c| {
-                c.connected && !timed_out_oracle(c, now, cto) && c.is_schedulable() && !c.weak && !c.loss_degraded && !c.is_stall_gated() && !in_flight_cap_exceeded(c)
+                c.connected && !timed_out_oracle(c, now, cto) && c.is_schedulable() && !c.weak && !c.loss_degraded && !c.stall_gated && !in_flight_cap_exceeded(c)
             });
             let mut scored: Vec<Option<f64>> = Vec::with_capacity(n);
             for c in &self.links {
-                let skipped = timed_out_oracle(c, now, cto) || !c.is_schedulable() || c.is_stall_gated() || !c.connected || (any_unc && in_flight_cap_exceeded(c));
+                let skipped = timed_out_oracle(c, now, cto) || !c.is_schedulable() || c.stall_gated || !c.connected || (any_unc && in_flight_cap_exceeded(c));
                 if skipped {
                     scored.push(None);
                     continue;
@@ -1394,8 +1394,8 @@ impl Component for Sel {
                     // configured window of the preceding pass; before any pass the link's own copy
                     let cto = self.last_cto.unwrap_or(c.verif_private().conn_timeout_ms);
                     let to = timed_out_oracle(c, now, cto);
-                    if !c.connected || !c.is_schedulable() || to || c.is_stall_gated() {
-                        mon.fail("C04", "override-ineligible", format!("best-quality override chose link {i}: connected={} schedulable={} timed_out(configured {cto})={to} gated={}", c.connected, c.is_schedulable(), c.is_stall_gated()));
+                    if !c.connected || !c.is_schedulable() || to || c.stall_gated {
+                        mon.fail("C04", "override-ineligible", format!("best-quality override chose link {i}: connected={} schedulable={} timed_out(configured {cto})={to} gated={}", c.connected, c.is_schedulable(), c.stall_gated));
                     }
                     mon.count("override-some");
                 }
